@@ -360,6 +360,11 @@ func ExploreScenario(seed int64, p Profile, x *Explorer) {
 			direct[A.Label+" "+name(0)]++
 			x.sendFrame(A, "subscribe", 1, "")
 			direct[A.Label+" "+name(1)]++
+			if x.R.Intn(2) == 0 {
+				// one of the two resources the model is about to reference is already held (and sent)
+				x.sendFrame(A, "subscribe", 3, "")
+				direct[A.Label+" "+name(3)]++
+			}
 			x.settle()
 			ch := absval.KV{0: ref(3), 1: ref(4), 9: prim()}
 			for k2, v := range ch {
